@@ -7,7 +7,7 @@
 (*          and what alpha observed: detected protocol class, response frames, EXCEPTION    *)
 (*          log records in order, the class that left handle(), environment operations,     *)
 (*          the log length when the injected failure was raised (mark), descriptors still   *)
-(*          open afterwards (nfds), the artefacts left in the tree (arts), a digest of the  *)
+(*          open afterwards (nfds) and child processes left (nproc), the artefacts left in the tree (arts), a digest of the  *)
 (*          reply modulo timestamps, and its role: single | alone | hist | final | socket   *)
 (*   reset  the tree is put back to its pristine state                                      *)
 (* For each conn event the specification first RUNS the design machine on rq from the        *)
@@ -34,7 +34,7 @@ TInit ==
     /\ InitConn(NoReq, TreeOf(HL))
 
 ObsView(e) == [proto |-> e.proto, method |-> Method(e.rq, e.proto), frames |-> e.frames, log |-> e.log,
-               esc |-> e.esc, nfds |-> e.nfds, mark |-> e.mark, ops |-> e.ops]
+               esc |-> e.esc, nfds |-> e.nfds, nproc |-> e.nproc, mark |-> e.mark, ops |-> e.ops]
 
 Judge(e) ==
     LET v == ObsView(e) IN
